@@ -67,7 +67,40 @@ def numeric_cases(tier, rnd):
 
 STRINGS = ['a', 'hello', 'hello world', '"quoted"', "it's", 'tab\\there', 'nl\\nx', 'back\\\\slash', 'x\\x41y', ' lead', 'trail ',
            'a  b', 'hash # not a comment', 'comma, separated', 'paren (x)', 'héllo', 'naïve café', 'Grüße', '日本語', 'emoji 😀 ok',
-           'mixé 日本 😀', 'ÿ', '\\x7f', 'q\\"q', "q\\'q", 'é\\n', 'ñ\\t€', '~!@$%^&*', 'UPPER lower 123']
+           'mixé 日本 😀', 'ÿ', '\\x7f', 'q\\"q', "q\\'q", 'é\\n', 'ñ\\t€', '~!@$%^&*', 'UPPER lower 123',
+           # a backslash that starts no escape stays a backslash, whatever follows it
+           'C:\\été', '\\é', 'a\\ÿb', '\\¡', '\\€uro', '\\日', '\\😀', 'é\\\\é', 'dir\\ça\\là', '\\q', 'a\\ b', '\\.', 'é\\xe9', '\\xe9é']
+
+NONESC = ' qzeEgG.;:-_+=!@$%^&*[]{}<>|~`?/'          # ASCII characters that start no escape sequence after a backslash
+WIDE = 'é¡ÿ×ßñ€Ω日本語😀𝄞'
+
+
+def random_strings(rnd, n):
+    """strings mixing ASCII, 2-/3-/4-byte characters, the escapes the oracle knows, and backslashes followed by characters that
+    start no escape (ASCII and non-ASCII); never ending in a lone backslash, never beginning or ending with a blank"""
+    out = []
+    for _ in range(n):
+        t = ''
+        for _ in range(rnd.randrange(1, 10)):
+            k = rnd.randrange(7)
+            if k == 0:
+                t += rnd.choice('abcXYZ019 _')
+            elif k == 1:
+                t += rnd.choice(WIDE)
+            elif k == 2:
+                t += '\\' + rnd.choice(['n', 't', 'r', '\\', '"', "'", 'x41', 'xe9', 'xff', 'x00'])
+            elif k == 3:
+                t += '\\' + rnd.choice(WIDE)
+            elif k == 4:
+                t += '\\' + rnd.choice(NONESC)
+            elif k == 5:
+                t += rnd.choice(WIDE) + '\\' + rnd.choice(WIDE)
+            else:
+                t += rnd.choice('#,()')
+        t = t.strip()
+        if t and (len(t) - len(t.rstrip('\\'))) % 2 == 0:      # no lone backslash at the end (an error, C15's subject)
+            out.append(t)
+    return out
 
 
 def run(tier, replay):
@@ -123,8 +156,8 @@ def run(tier, replay):
     reqs = []
     ress = []
     lines = []
-    for k, s in enumerate(STRINGS):
-        for pre in ('', '    ', '\t'):
+    for k, s in enumerate(STRINGS + random_strings(rnd, 150 if tier == 'quick' else 3000)):
+        for pre in (('', '    ', '\t') if k < len(STRINGS) else ('    ',)):
             line = pre + 'string ' + s
             lines.append((line, s))
             ress.append(progs.assemble_chunks(asm, line + '\n', False))
@@ -145,6 +178,7 @@ def run(tier, replay):
     # ---- 3. include_bytes: contents x locations x working directories
     n_inc = include_bytes_cases(asm, rep, rnd, tier, diffs)
     rep.count('include_bytes_cases', n_inc)
+    rep.count('include_bytes_path_cases', include_bytes_path_cases(asm, rep, rnd, tier))
     # ---- 4. data lines inside whole programs (sizes, order, contents)
     for r in layout_check.collect(tier, 300 if tier == 'quick' else 5000, tag=2):
         rep.evaluations += 1
@@ -245,6 +279,64 @@ def include_bytes_cases(asm, rep, rnd, tier, diffs):
             rep.count('model_vs_impl_fs_' + v2)
             if v2 == 'differ':
                 diffs.append(dict(layout=where, model=m[:200], impl=corr.canon_impl(outcomes[0])[:200]))
+    finally:
+        os.chdir(old)
+        shutil.rmtree(root, ignore_errors=True)
+    return done
+
+
+def include_bytes_path_cases(asm, rep, rnd, tier):
+    """include_bytes through paths the OS resolves in a non-textual way: `..` after a symlinked directory, `./`, `//`,
+    parent-relative and absolute paths; every candidate file has the same size, so reading the wrong one is silent.
+    Oracle: the operating system itself - the first of (-i directories in order, then the including file's directory)
+    under which os.path.join(dir, name) exists, opened directly."""
+    n = 24 if tier == 'quick' else 240
+    root = tempfile.mkdtemp(prefix='bbc10p-')
+    old = os.getcwd()
+    done = 0
+    try:
+        for i in range(n):
+            d = os.path.join(root, 'p%d' % i)
+            src_dir, shared, inc1, other = (os.path.join(d, x) for x in ('src', 'shared', 'inc1', 'elsewhere'))
+            for p in (src_dir, os.path.join(shared, 'assets'), os.path.join(src_dir, 'sub'), inc1, os.path.join(inc1, 'sub'), other):
+                os.makedirs(p)
+            os.symlink(os.path.join('..', 'shared', 'assets'), os.path.join(src_dir, 'assets'))
+            size = rnd.choice([1, 4, 9, 32])
+            files = [os.path.join(src_dir, 'data.bin'), os.path.join(shared, 'data.bin'), os.path.join(shared, 'assets', 'x.bin'),
+                     os.path.join(src_dir, 'sub', 'y.bin'), os.path.join(other, 'data.bin'), os.path.join(d, 'data.bin')]
+            if rnd.random() < 0.5:
+                files += [os.path.join(inc1, 'data.bin'), os.path.join(inc1, 'sub', 'y.bin')]
+            for k, f in enumerate(files):
+                open(f, 'wb').write(bytes([k * 16 + 1 + (j % 13) for j in range(size)]))
+            name = rnd.choice(['assets/../data.bin', 'sub/../data.bin', './data.bin', 'assets/x.bin', 'sub/./y.bin', 'sub//y.bin',
+                               '../shared/data.bin', '../data.bin', 'assets/../assets/x.bin', os.path.join(shared, 'data.bin'),
+                               'assets/../../src/data.bin'])
+            dirs = rnd.choice([[], [inc1]])
+            main = os.path.join(src_dir, 'main.asm')
+            open(main, 'w').write('include_bytes %s\n' % name)
+            exp = None
+            for base in list(dirs) + [src_dir]:
+                p = os.path.join(base, name)
+                if os.path.exists(p):
+                    exp = open(p, 'rb').read()
+                    break
+            for cwd in (src_dir, other, d):
+                os.chdir(cwd)
+                res = progs.assemble_chunks(asm, main, False, include_dirs=list(dirs))
+                os.chdir(old)
+                rep.evaluations += 1
+                if exp is None:
+                    bad = res.status != 'asmerr'
+                else:
+                    bad = res.status != 'ok' or res.bytes != exp
+                if bad:
+                    rep.violation('include_bytes {} (-i {} dirs, cwd {}): the search finds {} but the outcome is {} {}'.format(
+                        name, len(dirs), os.path.basename(cwd), exp.hex() if exp is not None else 'nothing',
+                        res.status + ':' + str(res.exc), (res.bytes or b'')[:32].hex()),
+                        dict(case=dict(layout='symlinked assets -> ../shared/assets; equal-size files', name=name, dirs=len(dirs),
+                                       cwd=os.path.basename(cwd))))
+            rep.nontrivial(('incpath', name if not name.startswith('/') else 'absolute', len(dirs), len(files)))
+            done += 1
     finally:
         os.chdir(old)
         shutil.rmtree(root, ignore_errors=True)
